@@ -109,6 +109,7 @@ const SUBJ: [&str; 8] = ["EMA", "DMA", "TMA", "DEMA", "TEMA", "RMA", "WSMA", "Vi
 
 fn main() {
 	refmodel::set_eps(eps());
+	refmodel::set_floor(ValueType::MIN_POSITIVE as f64);
 	let mut h = H::start("C03");
 	let thorough = h.thorough();
 	let maxp = PeriodType::MAX as usize;
